@@ -1,7 +1,7 @@
 (* Model of webserver/whip.go (whipEndpointHandler, whipResourceHandler) as
    far as authorisation goes.  The admission decision of group.AddClient for
    the credentials (username "whip", the bearer token as token) is an
-   argument ([None] = refused, [Some perms] = admitted with perms); the SDP
+   argument ([None] = refused, [Some perms] = let in with perms); the SDP
    negotiation is an oracle; session ids are chosen by the server. *)
 From Coq Require Import List Bool String.
 From Galene Require Import Model.Signal.
